@@ -16,7 +16,7 @@ F_DER = "generate_derivative_real_spherical_harmonics"
 F_SOL = "solid_harmonics"
 F_C2S = "convert_cart_to_sph"
 REQUIRED_HOOKS = ["utils." + f for f in (F_REC, F_SCI, F_DER, F_SOL, F_C2S)]
-REQUIRED_FAMILIES = ["values", "derivative", "solid", "cart2sph", "chain", "library-callers", "dtype-angles", "dtype-cart2sph", "history", "batch", "nsweep"]
+REQUIRED_FAMILIES = ["values", "derivative", "solid", "cart2sph", "chain", "library-callers", "dtype-angles", "dtype-cart2sph", "history", "batch", "nsweep", "errstate"]
 BUDGET = {"quick": 600, "thorough": 6000}
 RULE = (
     "Post-conditions attached to the five public functions of grid.utils (all bindings, fire on every call incl. the "
@@ -42,7 +42,11 @@ RULE = (
     "with the previous call and first/last column with single-point calls: quick every N in 1..150 at lmax 3 (all five "
     "functions), every N in 1..125 at lmax 200 (SciPy path), a seed-rotated sample of N <= 2600 plus 2^k, 2^k+1 at lmax 30/40/64; "
     "thorough every N in 1..1500 at lmax 30, 40, 64 (SciPy), 30, 40 (recursion), 1..4200 at lmax 3, small-N sweeps at lmax "
-    "100..250. A case is non-trivial when at least one decided oracle "
+    "100..250; errstate: the CALLER's NumPy error state as a dimension - the same batch (exact poles, equator, both "
+    "hemispheres, r = 0, the centre itself) under all='raise', divide/invalid/over/under='raise', all='warn', all='ignore' and a "
+    "mixed state: where the library returns the result must equal the default-state result (1e-14, bitwise on the current tree) "
+    "and is decided by the post-conditions (which always run under NumPy's default state); a FloatingPointError caused by the "
+    "caller's 'raise' is recorded (raises-under-errstate), never an alarm. A case is non-trivial when at least one decided oracle "
     "evaluation ran on it; reflected-angle cases are marked trivial."
 )
 ASSUMPTIONS = [
@@ -259,6 +263,19 @@ def _chk(ctx, clause, subject, measure, tol=0.0, sig=None, detail=None):
 _seen_obs = {}
 
 
+def _fpe_under_caller_state(ctx, fname, exc):
+    """FloatingPointError while the CALLER has switched NumPy to 'raise': the library does not guard that operation - recorded,
+    never an alarm (the unchanged tree does it for underflow inside SciPy-based products)."""
+    if isinstance(exc, FloatingPointError) and any(v == "raise" for v in _CALLER_STATE.values()):
+        _observe(ctx, "raises-under-errstate(not-guarded-by-the-library): " + fname, error=str(exc)[:80], state=dict(_CALLER_STATE))
+        ctx.count("raises-under-errstate:" + fname + ":" + str(exc)[:40])
+        return True
+    return False
+
+
+_CALLER_STATE = {}
+
+
 def _observe(ctx, text, **kw):
     """Record an undecided observation: the first per text and worker in full, the rest only counted."""
     k = _seen_obs.get(text, 0)
@@ -338,6 +355,8 @@ def _post_rec(ctx):
             ctx.count("calls-outside-documented-domain:" + F_REC)
             return
         if exc is not None:
+            if _fpe_under_caller_state(ctx, F_REC, exc):
+                return
             ctx.fail("no-exception", F_REC, f"raised:{type(exc).__name__}", detail={"error": str(exc)[:200], "lmax": int(lmax), "n": len(theta)})
             return
         _history(ctx, F_REC, res)
@@ -376,6 +395,8 @@ def _post_sci(ctx):
             ctx.count("calls-outside-documented-domain:" + F_SCI)
             return
         if exc is not None:
+            if _fpe_under_caller_state(ctx, F_SCI, exc):
+                return
             ctx.fail("no-exception", F_SCI, f"raised:{type(exc).__name__}", detail={"error": str(exc)[:200], "lmax": int(lmax), "n": len(theta)})
             return
         _history(ctx, F_SCI, res)
@@ -391,6 +412,8 @@ def _post_der(ctx):
             ctx.count("calls-outside-documented-domain:" + F_DER)
             return
         if exc is not None:
+            if _fpe_under_caller_state(ctx, F_DER, exc):
+                return
             ctx.fail("no-exception", F_DER, f"raised:{type(exc).__name__}", detail={"error": str(exc)[:200], "lmax": int(lmax), "n": len(theta)})
             return
         lmax = int(lmax)
@@ -508,6 +531,8 @@ def _post_sol(ctx):
             ctx.count("calls-outside-documented-domain:" + F_SOL)
             return
         if exc is not None:
+            if _fpe_under_caller_state(ctx, F_SOL, exc):
+                return
             ctx.fail("no-exception", F_SOL, f"raised:{type(exc).__name__}", detail={"error": str(exc)[:200], "lmax": int(lmax), "n": len(pts_a)})
             return
         lmax = int(lmax)
@@ -569,6 +594,8 @@ def _post_c2s(ctx):
             ctx.count("calls-outside-documented-domain:" + F_C2S)
             return
         if exc is not None:
+            if _fpe_under_caller_state(ctx, F_C2S, exc):
+                return
             ctx.fail("no-exception", F_C2S, f"raised:{type(exc).__name__}", detail={"error": str(exc)[:200], "n": len(P)})
             return
         n = len(P)
@@ -623,6 +650,31 @@ def _post_c2s(ctx):
     return post
 
 
+def _in_default_errstate(post):
+    """The caller's np.errstate must not leak into the monitor's own arithmetic (oracle, numerical differentiation)."""
+
+    def wrapped(res, exc, args, kwargs):
+        _CALLER_STATE.clear()
+        _CALLER_STATE.update(np.geterr())
+        with np.errstate(divide="warn", over="warn", under="ignore", invalid="warn"):
+            return post(res, exc, args, kwargs)
+
+    return wrapped
+
+
+ERR_STATES = [
+    {"all": "raise"},
+    {"divide": "raise"},
+    {"invalid": "raise"},
+    {"divide": "raise", "invalid": "raise"},
+    {"over": "raise"},
+    {"under": "raise"},
+    {"all": "warn"},
+    {"all": "ignore"},
+    {"divide": "ignore", "invalid": "raise", "over": "warn", "under": "raise"},
+]
+
+
 def setup(ctx):
     sph.self_test()
     o8.self_test()
@@ -631,11 +683,11 @@ def setup(ctx):
     for name in (F_REC, F_SCI, F_DER, F_SOL, F_C2S):
         f = getattr(gu, name)
         ORIG[name] = getattr(f, "__gridrv_orig__", f)
-    instrument.wrap_function(ctx, gu, F_REC, _post_rec(ctx))
-    instrument.wrap_function(ctx, gu, F_SCI, _post_sci(ctx))
-    instrument.wrap_function(ctx, gu, F_DER, _post_der(ctx))
-    instrument.wrap_function(ctx, gu, F_SOL, _post_sol(ctx))
-    instrument.wrap_function(ctx, gu, F_C2S, _post_c2s(ctx))
+    instrument.wrap_function(ctx, gu, F_REC, _in_default_errstate(_post_rec(ctx)))
+    instrument.wrap_function(ctx, gu, F_SCI, _in_default_errstate(_post_sci(ctx)))
+    instrument.wrap_function(ctx, gu, F_DER, _in_default_errstate(_post_der(ctx)))
+    instrument.wrap_function(ctx, gu, F_SOL, _in_default_errstate(_post_sol(ctx)))
+    instrument.wrap_function(ctx, gu, F_C2S, _in_default_errstate(_post_c2s(ctx)))
 
 
 # ---------------------------------------------------------------------------------- workload
@@ -643,7 +695,7 @@ ANGLE_KINDS = ["random", "wide", "poles", "equator", "lattice", "nearpole", "ref
 DERIV_KINDS = ["random", "wide", "poles", "equator", "lattice", "nearpole"]
 C2S_CENTERS = ["none", "origin", "random", "far", "list", "int"]
 C2S_POINTS = ["random", "axis", "equator", "centre", "nearpole", "scales"]
-C2S_DTYPES = ["int64", "int32", "int16", "float32", "float64-column-view", "float64-fortran", "float64-reversed"]
+C2S_DTYPES = ["int64", "int32", "int16", "float32", "float64-column-view", "float64-fortran", "float64-reversed", "float64-broadcast"]
 C2S_CENTER_FORMS = ["none", "list-fractional", "tuple-integer", "ndarray-fractional", "ndarray-integer", "list-integer", "ndarray-float32", "ndarray-strided"]
 
 
@@ -694,7 +746,7 @@ def cases(tier, seed):
         out.append(("library-callers", {"k": k}, 0.6))
     # argument FORMS: integer / single-precision / non-contiguous arrays, centre as None / list / tuple / ndarray
     for fn in ("rec", "sci", "der", "sol"):
-        for dt in ("int64", "int32", "float32", "strided"):
+        for dt in ("int64", "int32", "float32", "strided", "broadcast"):
             for lmax in (0, 1, 2, 3, 5, 8, 12, 20) if quick else (0, 1, 2, 3, 4, 5, 6, 8, 10, 12, 16, 20, 35, 60):
                 for k in range(1 if quick else 3):
                     out.append(("dtype-angles", {"fn": fn, "dtype": dt, "lmax": lmax, "k": k}, 0.3 + 1e-3 * (lmax + 1) ** 2))
@@ -723,6 +775,13 @@ def cases(tier, seed):
                 if quick and j % 2 == 1 and fn != "c2s":
                     continue
                 out.append(("batch", {"fn": fn, "lmax": lmax, "n": n if not quick else max(1000, n // 3), "k": k}, 2.0 + 2e-6 * (lmax + 1) ** 2 * n * (4 if fn in ("sol", "der") else 1)))
+    # the CALLER's NumPy floating-point error state as a dimension
+    for fn in ("rec", "sci", "sol", "der", "c2s"):
+        for lmax in ((0,) if fn == "c2s" else ((0, 1, 2, 3, 5, 8, 12, 20, 35) if quick else (0, 1, 2, 3, 4, 5, 6, 8, 10, 12, 16, 20, 25, 35, 60, 100))):
+            if fn == "der" and lmax > 60:
+                continue
+            for k in range(1 if quick else 3):
+                out.append(("errstate", {"fn": fn, "lmax": lmax, "k": k}, 0.5 + 4e-4 * (lmax + 1) ** 2 * (6 if fn == "der" else 1)))
     # N SWEEPS: calls with N = n0 .. n1-1 leading points of one pool, every column compared with the previous call
     out += _sweep_cases(tier, seed)
     out.append(("cart2sph-negzero-observed", {}, 0.5))
@@ -828,6 +887,55 @@ def _run_batch(ctx, gu, params):
             continue
         dev = _col_dev(want, S)
         _chk(ctx, "batch-invariance", f"{name}:{label}", dev, 1e-14, sig="column-depends-on-batch", detail={"lmax": lmax, "n": n, "subset": label, "dev": dev})
+
+
+def _run_errstate(ctx, gu, params):
+    """Same batch (exact poles, equator, both hemispheres, r = 0, the centre itself) under every caller error state: where the
+    library returns, the result equals the one under the default state (and the post-conditions decide it against the oracle);
+    where it raises FloatingPointError because the caller asked NumPy to raise, that is recorded, not decided."""
+    rng = ctx.rng
+    fn, lmax = params["fn"], params["lmax"]
+    name = FN_NAME[fn]
+    n = 40
+    th = rng.uniform(-7, 7, n)
+    ph = np.arccos(rng.uniform(-1, 1, n))
+    ph[:8] = [0.0, np.pi, np.pi / 2, 0.0, 2.5, 0.4, 3.0, 1e-9]
+    r = 10.0 ** rng.uniform(-1, 0.5, n)
+    r[[3, 9]] = 0.0
+    c = np.array([0.3, -0.2, 0.1])
+    pts = c + rng.normal(size=(n, 3))
+    pts[0] = c  # the centre itself
+    pts[1] = c + [0.0, 0.0, 2.0]
+    pts[2] = c + [0.0, 0.0, -1.5]
+    pts[3] = c + [1.0, 0.0, 0.0]
+
+    def run():
+        if fn == "c2s":
+            return gu.convert_cart_to_sph(pts, c)
+        return _call(gu, fn, lmax, th, ph, r)
+
+    with ctx.guard("no-exception", name + ":default-errstate"):
+        base = run()
+    for st in ERR_STATES:
+        label = ",".join(f"{k}={v}" for k, v in st.items())
+        try:
+            with np.errstate(**st):
+                got = run()
+        except FloatingPointError as e:
+            if any(v == "raise" for v in st.values()):
+                ctx.count("errstate-calls-that-raised-FloatingPointError:" + name)
+                continue
+            ctx.fail("errstate-invariance", f"{name}:{label}", "raised:FloatingPointError", detail={"error": str(e)[:200], "lmax": lmax})
+            continue
+        ctx.count("errstate-calls-that-returned:" + name)
+        if np.shape(got) != np.shape(base):
+            ctx.fail("errstate-invariance", f"{name}:{label}", "shape-differs", detail={"lmax": lmax})
+            continue
+        dev = _col_dev(got, base)
+        _chk(ctx, "errstate-invariance", f"{name}:{label}", dev, 1e-14, sig="result-depends-on-callers-errstate", detail={"lmax": lmax, "dev": dev, "state": label})
+        if np.geterr() != {"divide": "warn", "over": "warn", "under": "ignore", "invalid": "warn"}:
+            ctx.fail("errstate-invariance", f"{name}:{label}", "callers-errstate-not-restored", detail={"now": dict(np.geterr())})
+            np.seterr(divide="warn", over="warn", under="ignore", invalid="warn")
 
 
 def _run_nsweep(ctx, gu, params):
@@ -994,6 +1102,8 @@ def run_case(ctx, family, params):
         _run_history(ctx, gu, params)
     elif family == "batch":
         _run_batch(ctx, gu, params)
+    elif family == "errstate":
+        _run_errstate(ctx, gu, params)
     elif family == "nsweep":
         _run_nsweep(ctx, gu, params)
     elif family == "edge":
@@ -1111,6 +1221,10 @@ def _run_dtype_angles(ctx, gu, params):
         th = rng.uniform(-7, 7, n).astype(np.float32)
         ph = np.arccos(rng.uniform(-1, 1, n)).astype(np.float32)
         r = rng.uniform(0.3, 3, n).astype(np.float32)
+    elif dt == "broadcast":  # zero-stride read-only views (one azimuth for all points / one radius)
+        th = np.broadcast_to(np.float64(rng.uniform(-7, 7)), (n,))
+        ph = np.arccos(rng.uniform(-1, 1, n))
+        r = np.broadcast_to(np.float64(1.7), (n,))
     else:  # non-contiguous float64 views (every third element / reversed)
         th = rng.uniform(-20, 20, 3 * n)[::3]
         ph = np.arccos(rng.uniform(-1, 1, n))[::-1]
@@ -1136,7 +1250,7 @@ def _run_dtype_angles(ctx, gu, params):
     err = float(np.max(np.where(np.isnan(d), np.inf, d) / scale, initial=0.0))
     if dt == "float32":
         tol = tol_low(float(np.finfo(np.float32).eps), lmax, (th, ph), power=3 if fn == "der" else 2)
-    elif dt == "strided":  # NumPy's strided and contiguous sin/cos loops may differ in the last bit
+    elif dt in ("strided", "broadcast"):  # NumPy's strided and contiguous sin/cos loops may differ in the last bit
         tol = 1e-12 * (1 + lmax)
     else:
         tol = 1e-13
@@ -1157,6 +1271,8 @@ def _run_dtype_c2s(ctx, gu, params):
         pts = rng.normal(size=(n, 7))[:, 2:5]
     elif dt == "float64-fortran":
         pts = np.asfortranarray(rng.normal(size=(n, 3)))
+    elif dt == "float64-broadcast":
+        pts = np.broadcast_to(rng.normal(size=3), (n, 3))
     else:
         pts = rng.normal(size=(2 * n, 3))[::-2, ::-1]
     frac = np.round(rng.uniform(-2, 2, 3), 2) + 0.013
